@@ -234,8 +234,9 @@ FAILING = [
     (None, "SELECT a FROM t WHERE"),
     ("bigquery", "SELECT `unterminated FROM t"),
     (None, "CASE WHEN"),
-    (None, "SELECT a, /* pending */ 'unterminated"),
-    ("postgres", "SELECT /* c */ a, $$unterminated"),
+    (None, "SELECT a,\n/* pending */ 'unterminated"),
+    ("postgres", "SELECT a,\n-- pending\n$$unterminated"),
+    (None, "/* leading */ 'unterminated"),
     (None, "SELECT a -- trailing comment\n, \"unterminated"),
     (None, "SELECT a FROM t CONNECT BY PRIOR a = ("),
     (None, "SELECT a FROM t START WITH a = 1 CONNECT BY PRIOR"),
